@@ -129,11 +129,11 @@ def run(res, tier):
     ok = False
     for (g, w) in aw:
         if g is f:
-            r = A.strip_casts(w['ch'][1])
-            if r.is_call() and (r.get('q') or '').endswith('muscleMin'):
-                a = r.args()
+            mm = A.min_max(G.local_init(f, w['ch'][1]))
+            if mm is not None and mm[0] == 'min':
+                a = mm[1]
                 own = any(this_field(x, '_myScheduledTime') for x in a)
-                kid = any(x.is_call() and (x.get('q') or '').endswith('::GetFirstScheduledChildTime') for y in a for x in y.walk())
+                kid = any(x.is_call() and (x.get('q') or '').endswith('::GetFirstScheduledChildTime') for y in a for x in A.walk_through_locals(f, y))
                 ok = own and kid
     res.ob('AGGREGATE', f.where(), '_aggregatePulseTime = muscleMin(_myScheduledTime, GetFirstScheduledChildTime())', ok, function=f.q, key='AGGREGATE|%s|min' % f.q,
            message='the aggregate pulse time is no longer the minimum of the node\'s own time and its earliest scheduled child: the root reports a wake-up time later than some node requested')
